@@ -14,6 +14,7 @@ for k in a b c d; do
   if [ "$R" = "r6" ]; then t=$(echo $k | tr abcd opqr); fi
   if [ "$R" = "r7" ]; then t=$(echo $k | tr abc stu); fi
   if [ "$R" = "r8" ]; then t=$(echo $k | tr abc vwx); fi
+  if [ "$R" = "r9" ]; then t=$(echo $k | tr ab yz); fi
   dst=/verif/seeded/$ID$t
   mkdir -p $dst
   cp -r $src/. $dst/
